@@ -40,32 +40,43 @@ ARCH_OPS = [
 ]
 
 
-def build():
+def build(builds=None):
+    """Builds (or finds in the cache) the conversion harness for the given (compiler, standard) groups.
+    Each group is marked done separately, so C01 (one group) and C13 (all groups) share one cache."""
+    builds = list(builds or BUILDS)
     key = C.sha_files([C.HEADER, SRC], "conv")
     with C.BuildDir("conv", key) as bd:
-        exes = {"%s-c++%s/part%d" % (b[0], b[1], p): bd.file("conv_%s_%s_p%d" % (b[0], b[1], p)) for b in BUILDS for p in range(NPARTS)}
+        exes = {"%s-c++%s/part%d" % (b[0], b[1], p): bd.file("conv_%s_%s_p%d" % (b[0], b[1], p)) for b in builds for p in range(NPARTS)}
         errs = {}
-        if bd.done("conv"):
-            os.utime(bd.path)
-            try:
-                with open(bd.file("errors.json")) as f:
-                    errs = json.load(f)
-            except (OSError, ValueError):
-                errs = {}
-            return bd.path, exes, errs
+        os.utime(bd.path)
+        todo = []
+        for cc, st in builds:
+            if bd.done("conv") or bd.done("conv-%s-%s" % (cc, st)):
+                try:
+                    with open(bd.file("errors.json" if bd.done("conv") else "errors-%s-%s.json" % (cc, st))) as f:
+                        errs.update(json.load(f))
+                except (OSError, ValueError):
+                    pass
+            else:
+                todo.append((cc, st))
         units = []
         flags = [f for f in C.SAN_FLAGS if f != "-g"]
-        for cc, st in BUILDS:
+        for cc, st in todo:
             for p in range(NPARTS):
                 name = "%s-c++%s/part%d" % (cc, st, p)
                 units.append(([cc, "-std=c++" + st, "-w"] + flags + ["-DCONV_SUBJECT_GCH", "-DCONV_PART=%d" % p, "-I", C.INCLUDE, SRC, "-lrapidcheck", "-o", exes[name]], name))
-        bad = C.compile_many(units)
-        for name, rc, err in bad:
-            errs[name] = err[-6000:]
-        with open(bd.file("errors.json"), "w") as f:
-            json.dump(errs, f)
-        if not errs:
-            bd.mark("conv")      # failures (which may be time-outs on a loaded machine) are never cached
+        if units:
+            bad = C.compile_many(units)
+            for cc, st in todo:
+                mine = {}
+                for name, rc, err in bad:
+                    if name.startswith("%s-c++%s/" % (cc, st)):
+                        mine[name] = err[-6000:]
+                errs.update(mine)
+                with open(bd.file("errors-%s-%s.json" % (cc, st)), "w") as f:
+                    json.dump(mine, f)
+                if not mine:
+                    bd.mark("conv-%s-%s" % (cc, st))      # failures (which may be time-outs on a loaded machine) are never cached
     C.prune_builds("conv")
     return bd.path, exes, errs
 
@@ -138,10 +149,10 @@ def run_archetypes(verdict, prop, tier):
     return nviol, len(jobs), nontriv, samples
 
 
-def run_check(prop, tier, verdict):
+def run_check(prop, tier, verdict, builds=None, archetypes=True):
     seed = C.seed_from_env()
     t0 = time.time()
-    bdpath, exes, errs = build()
+    bdpath, exes, errs = build(builds)
     os.makedirs(C.REPLAYS_TMP, exist_ok=True)
     nviol = 0
     evals = nontriv = 0
@@ -213,7 +224,7 @@ def run_check(prop, tier, verdict):
                 verdict.violation(dest, "build %s: %s" % (name, st["failure"]))
                 nviol += 1
     shutil.rmtree(outdir, ignore_errors=True)
-    av, ae, an, asamples = run_archetypes(verdict, prop, tier)
+    av, ae, an, asamples = run_archetypes(verdict, prop, tier) if archetypes else (0, 0, 0, [])
     nviol += av
     cov = dict(conv_evaluations=int(evals), conv_nontrivial_evaluations=int(nontriv), conv_builds=per_build, conv_samples=samples,
                archetype_probes=ae, archetype_nontrivial=an, archetype_samples=asamples,
